@@ -1447,6 +1447,20 @@ func (r *c18Run) opFilter(c *cursor) *Violation {
 		tl = []ecs.Entity{tg}
 	}
 	withRel := fl.rel >= 0 && !contains2(fl.optional, fl.rel)
+	if fl.rel >= 0 && (fl.fixedTarget != nil || fl.registered) && c.n(5) == 0 {
+		// a target handed to a filter whose target is fixed, or which is registered: refused - and the refusal must not
+		// leave a trace in the filter (the ordinary query right below compares it with the core filter again)
+		tg, _ := r.pick(c)
+		refused := func() (p bool) {
+			defer func() { p = recover() != nil }()
+			f.Query(G, []ecs.Entity{tg}, withRel)
+			return
+		}()
+		if !refused {
+			return r.viol("FilterN.Query with a target was accepted by a filter that is registered or has a fixed target")
+		}
+		r.stats["filter-target-refused"]++
+	}
 	var gq qres
 	var kents []ecs.Entity
 	var kn int
